@@ -76,17 +76,14 @@ pub fn child(args: &[String]) -> ! {
         _ => {
             let mut freed = 0u64;
             let mut cqes = 0u64;
-            for i in 0..(8 * scale) {
+            for i in 0..(6 * scale) {
                 let mut rng = Rng::new(vcore::rng::mix(seed ^ (0xC18 << 32) ^ i));
-                let mut s = gen_script(&mut rng, 26, true);
-                // make sure cancels and a crash are present
-                if i % 2 == 0 {
-                    s.acts.push(crate::ring::RAct::Crash);
-                    s.acts.push(crate::ring::RAct::Advance { ns: 10_000_000 });
-                    for r in 0..s.depths.len() {
-                        s.acts.push(crate::ring::RAct::Drain { ring: r, max: None });
-                    }
-                }
+                // dense cancel / crash scripts, every third one a random script
+                let s = if i % 3 == 2 {
+                    gen_script(&mut rng, 30, true)
+                } else {
+                    crate::ring::gen_san_script(&mut rng)
+                };
                 let mut st = RStats::default();
                 let c = crate::c18::run_direct(&s, &mut st, true);
                 ops += s.acts.len() as u64;
